@@ -509,7 +509,7 @@ func genStream(rng *rand.Rand, n int) []byte {
 
 func runC18(r *fw.Run) {
 	rng := rand.New(rand.NewSource(r.Seed*47 + 18))
-	n := r.Pick(3000, 30000)
+	n := r.Pick(3000, 120000)
 	readSets := [][]int{{0, 1}, {0, 7}, {0, 4095}, {0, 4096, 4097}, {0, 65536}, {0, 0, 3}, {5}, {0}, {1, 0}, {4096}, {0, 1, 7, 4095, 4096, 4097, 65536}}
 	sizes := []int{0, 1, 10, 100, 1000, 4095, 4096, 4097, 8192, 10000, 70000}
 	var cases []*c18Case
@@ -529,14 +529,14 @@ func runC18(r *fw.Run) {
 		cases = append(cases, &c18Case{Transport: []string{"pipe", "unix", "tcp"}[k%3], Stream: S, Seg: segFor(rng, kind, len(S), bounds), Reads: readSets[rng.Intn(len(readSets))]})
 	}
 	// the decisive shape: a frame and the raw payload coalesced in one segment
-	for k := 0; k < r.Pick(300, 3000); k++ {
+	for k := 0; k < r.Pick(300, 9000); k++ {
 		frame := append([]byte(fmt.Sprintf(`{"method":"x.y.Up","upgrade":true,"n":%d}`, k)), 0)
 		payload := genStream(rng, 1+rng.Intn(300))
 		S := append(append([]byte{}, frame...), payload...)
 		cases = append(cases, &c18Case{Transport: []string{"pipe", "unix", "tcp"}[k%3], Stream: S, Seg: Seg{}, Reads: [][]int{{0, 16, 16, 16, 16, 16, 16, 16, 16, 16, 16, 16, 16, 16, 16, 16, 16, 16, 16, 16, 16}, {0, 4096, 4096, 4096}, {0, 1, 1, 1, 1, 1, 1, 1, 1, 1, 1, 1, 1, 1, 1, 1, 1, 1, 1, 1, 1, 1, 1, 1, 1, 1, 1, 1, 1, 1, 1}}[k%3], What: "frame+payload coalesced"})
 	}
 	// a frame longer than the internal buffer and the raw payload right behind it in one segment
-	for k := 0; k < r.Pick(60, 600); k++ {
+	for k := 0; k < r.Pick(60, 1800); k++ {
 		flen := []int{4090, 4096, 4200, 5000, 8192, 20000, 70000}[k%7]
 		frame := append([]byte(`{"method":"x.y.Up","upgrade":true,"pad":"`), bytes.Repeat([]byte("p"), flen)...)
 		frame = append(frame, []byte(`"}`)...)
@@ -601,7 +601,7 @@ func runC18(r *fw.Run) {
 		for try := 0; try < 1000 && g.Probe() != nil; try++ {
 			time.Sleep(300 * time.Microsecond)
 		}
-		for k := 0; k < r.Pick(300, 3000); k++ {
+		for k := 0; k < r.Pick(300, 9000); k++ {
 			c := &c18UpCase{Side: "service", Transport: tr, Payload: genStream(rng, 1+rng.Intn(2000)), Coalesced: k%2 == 0, Sizes: [][]int{{16}, {1}, {4096}, {7, 4095}, {65536}, {0, 5}}[rng.Intn(6)]}
 			id := fmt.Sprintf("u%s%d", tr, k)
 			if r.ViolationCount() > 24 {
@@ -620,7 +620,7 @@ func runC18(r *fw.Run) {
 	srv, err := newRawServer(r.WorkDir)
 	if err == nil {
 		defer srv.Close()
-		for k := 0; k < r.Pick(300, 3000); k++ {
+		for k := 0; k < r.Pick(300, 9000); k++ {
 			c := &c18UpCase{Side: "client", Transport: "unix", Payload: genStream(rng, 1+rng.Intn(2000)), Coalesced: k%2 == 0, Sizes: [][]int{{16}, {1}, {4096}, {7, 4095}, {65536}}[rng.Intn(5)]}
 			r.Journal(0, c)
 			c18ClientSide(r, srv, c, fmt.Sprintf("c%d", k))
